@@ -197,7 +197,7 @@ func (x *Explorer) shouldInline(fn *ssa.Function, binds []Val) bool {
 	// plain helper functions of the module's other hand-written packages (a date helper moved into
 	// x/ecocredit/basket, a packet builder moved into an internal package): seen through, except the
 	// named API functions the format / validator / query rules reason about as terms (termFuncs)
-	if fn.Signature.Recv() == nil && fn.Parent() == nil && (x.validatorMode || !strings.Contains(pp, "/types/v")) {
+	if fn.Signature.Recv() == nil && fn.Parent() == nil && (x.validatorMode || !(strings.Contains(pp, "/x/") && strings.Contains(pp, "/types/v"))) {
 		// (helpers of the message type packages are seen through while a validator is explored: a shared
 		// "validate each element" or "parse each rate" helper is part of the validator)
 		if !termFuncs[shortPkg(pp)+"."+originName(fn)] {
